@@ -60,7 +60,11 @@ def schema(T, with_cons=True):
         raise ValueError(k)
     if with_cons and T.get('cons') is not None:
         from . import cons as consmod
-        if T.get('cons_steps'):
+        if T.get('cons_class'):
+            # the constraint as a class attribute of a subclass (the spelling of generated modules), not wrapped in anything
+            obj = type(obj.__class__.__name__ + 'Constrained', (obj.__class__,), {'subtypeSpec': consmod.build(T['cons'], k)})(
+                **({'componentType': obj.componentType} if k in ir.CONSTRUCTED_KINDS else {}))
+        elif T.get('cons_steps'):
             # a derivation chain whose links add one constraint object each (T['cons'] is their conjunction)
             for step in T['cons_steps']:
                 obj = obj.subtype(subtypeSpec=consmod.build(step, k))
